@@ -28,6 +28,7 @@ type Program struct {
 	Contracts *Contracts
 	GhostSrc  string
 	Funcs     map[string]*ssa.Function // RelString name -> function (incl. anonymous)
+	UndecidedC10 []string
 	Undecided []string                 // problems that make contracts unusable (target missing, ...)
 	ContractFiles []string
 }
@@ -227,6 +228,7 @@ func LoadProgram(dir string) (*Program, error) {
 	pr.Prog, pr.SSA = buildSSAFrom(p1.Fset, tpkg, files, info)
 	pr.Funcs = collectFuncs(pr.SSA)
 	pr.Undecided = append(pr.Undecided, checkClosers(pr)...)
+	pr.UndecidedC10 = checkShared(pr)
 	return pr, nil
 }
 
@@ -693,6 +695,53 @@ func findPkg(p *packages.Package, path string) *types.Package {
 
 // checkClosers scans every close(x) in the package: if x is loaded from a field with a closer
 // declaration, the enclosing function must be the declared one.
+// checkShared: every field of a struct type declared shared must be classified by a guard declaration.
+func checkShared(pr *Program) []string {
+	var out []string
+	for _, tn := range pr.Contracts.Shared {
+		obj := pr.SSA.Pkg.Scope().Lookup(tn)
+		if obj == nil {
+			out = append(out, fmt.Sprintf("shared type %s does not exist in the current tree", tn))
+			continue
+		}
+		stt, ok := obj.Type().Underlying().(*types.Struct)
+		if !ok {
+			out = append(out, fmt.Sprintf("shared type %s is not a struct", tn))
+			continue
+		}
+		for i := 0; i < stt.NumFields(); i++ {
+			f := tn + "." + stt.Field(i).Name()
+			found := false
+			for _, g := range pr.Contracts.Guards {
+				if g.Field == f {
+					found = true
+				}
+			}
+			if !found {
+				out = append(out, fmt.Sprintf("field %s of shared type %s has no guard declaration (C10)", f, tn))
+			}
+		}
+	}
+	for _, g := range pr.Contracts.Guards {
+		tn, field, _ := strings.Cut(g.Field, ".")
+		obj := pr.SSA.Pkg.Scope().Lookup(tn)
+		ok := false
+		if obj != nil {
+			if stt, isS := obj.Type().Underlying().(*types.Struct); isS {
+				for i := 0; i < stt.NumFields(); i++ {
+					if stt.Field(i).Name() == field {
+						ok = true
+					}
+				}
+			}
+		}
+		if !ok {
+			out = append(out, fmt.Sprintf("guard declaration for %s: no such field in the current tree (%s)", g.Field, g.Line))
+		}
+	}
+	return out
+}
+
 func checkClosers(pr *Program) []string {
 	var out []string
 	if len(pr.Contracts.Closers) == 0 {
